@@ -70,7 +70,7 @@ def _field_classes(tree):
 
 @rule(
     "FE.fields.blank",
-    props=("C11", "C12", "C13", "C14", "C15"),
+    props=("C11", "C12", "C13", "C14", "C15", "C16"),
     floor=30,
     family="SIB",
     desc="per state-owning frontend class: every field initialised in __init__ is also set by _blank_copy "
@@ -111,6 +111,24 @@ def fe_fields_blank(R):
                         f"{c.name}._blank_copy: container field {f} starts empty",
                         f"{c.name}._blank_copy initialises the container field {f} with `{norm(val)}`: a blank copy "
                         f"(used by merge/combine/split) must not inherit facts that were derived from the parent's constraints",
+                    )
+            # ... and a field that __init__ starts at a constant (not at a parameter: that is state, not configuration)
+            # starts at a constant again, never at the parent's value
+            if f in blank and isinstance(fields[f], ast.Constant):
+                for kind, node, val in blank[f]:
+                    if kind != "assign" or val is None:
+                        continue
+                    inherits = any(isinstance(x, ast.Name) and x.id == "self" for x in ast.walk(val))
+                    R.check(
+                        not inherits,
+                        m,
+                        node,
+                        f"{c.name}._blank_copy: state field {f} starts blank",
+                        f"{c.name}._blank_copy gives the blank copy the parent's {f} (`{norm(val)}`), a field that __init__ starts at "
+                        f"`{norm(fields[f])}`: split() / merge() / combine() / blank_copy() hand out solvers that hold other "
+                        f"constraints, and what was derived from the parent's does not hold for them (a solver split off an "
+                        f"unsatisfiable one reported the parent's unsat core although it is satisfiable)",
+                        construct=f"{c.name}._blank_copy: {f} inherited from the parent",
                     )
     R.need(n_classes >= 9, f"only {n_classes} state-owning frontend classes found")
     R.extra["state_owning_classes"] = n_classes
